@@ -296,11 +296,16 @@ class NamedObject:
 
   def _collect_all_single( s, filt=lambda x: isinstance( x, NamedObject ) ):
     ret = set()
-    stack = [s]
+    # (object, the object whose attribute it is): a second reference to an
+    # object that lives elsewhere ( s.ext = sibling.out ) is not followed
+    stack = [ (s, None) ]
     while stack:
-      u = stack.pop()
+      u, holder = stack.pop()
 
       if   isinstance( u, NamedObject ):
+        if holder is not None and getattr( u._dsl, 'parent_obj', holder ) is not holder:
+          continue
+
         if filt( u ): # Check if m satisfies the filter
           ret.add( u )
 
@@ -311,23 +316,25 @@ class NamedObject:
 
           if   isinstance( name, str ):
             if name[0] != '_': # filter private variables
-              stack.append( obj )
+              stack.append( (obj, u) )
 
           elif isinstance( name, tuple ): # name = [1:3]
-            stack.append( obj )
+            stack.append( (obj, u) )
 
       # ONLY LIST IS SUPPORTED
       elif isinstance( u, list ):
-        stack.extend( u )
+        stack.extend( (x, holder) for x in u )
     return ret
 
   # It is possible to take multiple filters
   def _collect_all( s, filt=[ lambda x: isinstance( x, NamedObject ) ] ):
     ret = [ set() for _ in filt ]
-    stack = [s]
+    stack = [ (s, None) ]
     while stack:
-      u = stack.pop()
+      u, holder = stack.pop()
       if   isinstance( u, NamedObject ):
+        if holder is not None and getattr( u._dsl, 'parent_obj', holder ) is not holder:
+          continue
 
         for i in range( len(filt) ):
           if filt[i]( u ): # Check if m satisfies the filter
@@ -340,14 +347,14 @@ class NamedObject:
 
           if   isinstance( name, str ):
             if name[0] != '_': # filter private variables
-              stack.append( obj )
+              stack.append( (obj, u) )
 
           elif isinstance( name, tuple ): # name = [1:3]
-            stack.append( obj )
+            stack.append( (obj, u) )
 
       # ONLY LIST IS SUPPORTED
       elif isinstance( u, list ):
-        stack.extend( u )
+        stack.extend( (x, holder) for x in u )
     return ret
 
   # Developers should use repr(x) everywhere to get the name
